@@ -812,7 +812,7 @@ func c19Run(c *caseCtx) (res caseResult) {
 			if host != nil && host.alive {
 				parts := strings.SplitN(key, "/", 2)
 				if !waitFor(wd, func() bool { return host.eng.Registry.GetPID(parts[0], parts[1]) == nil }) {
-					res.violate("step %d: %s: the actor is still registered on its host %s", step, what, host.id)
+					res.neverOrNotYet("step %d: %s: the actor is still registered on its host %s", step, what, host.id)
 				}
 				host.prod.mu.Lock()
 				st := host.prod.stopped[key]
